@@ -11,6 +11,7 @@
   reply delays far beyond the election timeout, deposed leaders, non-voters).
 -/
 import RaftVerif.Proofs.ElectionLemmas
+import RaftVerif.Proofs.ReplReadExample
 set_option linter.unusedSimpArgs false
 namespace Raft
 open Node
@@ -124,5 +125,25 @@ def exLeader : Node :=
     pendingReads := [{ tag := 7, lease := false, readIndex := 2, verified := true, seq := 1 },
                      { tag := 8, lease := false, readIndex := 2, verified := false, seq := 2 }] }
 example : (exLeader.readOnlyStep 1000).2 = [.served 7] := by decide
+
+/-! ### Cluster level (Proofs/ReplRead.lean) -/
+
+/-- **Linearizable reads are never stale.** On the timed replication-layer model
+    (Model/ReplRead.lean: the cluster model of C01 with a logical clock; a leader registers a
+    read with the read index the code takes; `CanServe` is the guard under which the code
+    answers it: still leader of that term, an entry of its own term committed, read index
+    applied, and a quorum — the leader counting itself — has answered replication requests of
+    this term that were built after the read was registered): in every reachable state, every
+    commit any leader made before the read was registered lies, with exactly its entries,
+    inside the prefix the read is answered from. No assumption on timing or clocks. -/
+theorem C05_linearizable_read {cfg : Config} (hnd : cfg.voterIds.Nodup) {r : Repl.RState} (hreach : Repl.RReachable cfg r)
+    (rd : Repl.Read) (a : Nat) (Q : List Nat) (hs : Repl.CanServe cfg r rd a Q) :
+    ∀ e ∈ r.commitAt, e.time < rd.time → e.index ≤ a ∧ e.pre <+: (r.s.nodes rd.leader).log.take a :=
+  Repl.linearizable_read hnd hreach rd a Q hs
+
+/-- non-vacuity: a reachable state in which a read registered after a commit can be served -/
+example : Repl.RReachable Repl.cfg3 Repl.t10 ∧ Repl.CanServe Repl.cfg3 Repl.t10 Repl.rd8 2 [1, 2] ∧
+    ∃ e ∈ Repl.t10.commitAt, e.time < Repl.rd8.time ∧ e.index = 2 :=
+  ⟨Repl.t10_reachable, Repl.t10_can_serve, Repl.t10_has_earlier_commit⟩
 
 end Raft
